@@ -3,6 +3,7 @@
 //  unm  kind c checked hex       -> Go-binding protocol on an arbitrary buffer (exact-size heap copies; --guard: flush against PROT_NONE pages)
 //  lq   seed idhash keylen mode  -> LQ-IBE encrypt/decrypt with the hash callback as recorder
 #include "common.h"
+#include "x86base.h"
 
 #include <signal.h>
 #include <sys/mman.h>
@@ -526,6 +527,7 @@ int main(int argc, char** argv) {
     static char outbuf[1 << 16];
     setvbuf(stdout, outbuf, _IOFBF, sizeof outbuf);
     verif_install_death_flush();
+    verif_x86base_option(argc, argv);
     while (read_line(stdin)) {
         if (g_ntok == 0) { printf("\n"); continue; }
         const char* op = g_tok[0];
